@@ -9,6 +9,7 @@ package c16
 import (
 	"encoding/json"
 	"fmt"
+	"regexp"
 	"strings"
 
 	"github.com/openconfig/goyang/pkg/yang"
@@ -24,6 +25,11 @@ type Input struct {
 	// fault / sem: what was injected and where the error must point
 	Fault string `json:"fault,omitempty"`
 	Want  string `json:"want,omitempty"` // "line:col"
+	// fault: where the second error must point (a string with an invalid escape that also stands where
+	// no string may stand: first the backslash, then the opening quote)
+	Want2 string `json:"want2,omitempty"`
+	// After: a text parsed in the same process immediately before Text (pair space)
+	After *string `json:"after,omitempty"`
 	// sem: the statement the error must name
 	WantKeyword string `json:"want_keyword,omitempty"`
 	WantArg     string `json:"want_arg,omitempty"`
@@ -48,7 +54,10 @@ func cmpPos(a []*rfcread.RStmt, b []*yang.Statement) string {
 }
 
 func checkPos(text string) (f *fail, excluded string, nstmts int) {
-	r := rfcread.Parse(text)
+	return checkPosRef(rfcread.Parse(text), text)
+}
+
+func checkPosRef(r rfcread.RRes, text string) (f *fail, excluded string, nstmts int) {
 	if r.Excluded != "" {
 		return nil, r.Excluded, 0
 	}
@@ -83,7 +92,10 @@ func faultMax(tier string) int {
 
 type injected struct {
 	fault, text, want string
+	want2             string
 }
+
+var errStart = regexp.MustCompile(`(?m)^f:(\d+:\d+): `)
 
 func isSepRune(r rune) bool {
 	return r == ' ' || r == '\t' || r == '\r' || r == '\n'
@@ -110,7 +122,12 @@ func inject(s string) []injected {
 	}
 	var out []injected
 	add := func(fault, text string, line, col int) {
-		out = append(out, injected{fault, text, fmt.Sprintf("%d:%d", line, col)})
+		out = append(out, injected{fault, text, fmt.Sprintf("%d:%d", line, col), ""})
+	}
+	// two errors about one token: an invalid escape inside it (the backslash), then the string itself
+	// standing where none may stand (its opening quote)
+	add2 := func(fault, text string, line, col, line2, col2 int) {
+		out = append(out, injected{fault, text, fmt.Sprintf("%d:%d", line, col), fmt.Sprintf("%d:%d", line2, col2)})
 	}
 	depth := 0
 	for ti, t := range toks {
@@ -142,6 +159,10 @@ func inject(s string) []injected {
 			// ... written in pieces joined by +, one piece per line: still the first opening quote
 			add("quoted-keyword-concatenated", string(rs[:o])+"\""+t.Text+"\" +\n  'x' + \"y\""+rest, t.Line, t.Col)
 			add("quoted-keyword-concatenated", string(rs[:o])+"'"+t.Text+"'+\"z\""+rest, t.Line, t.Col)
+			tl := len([]rune(t.Text))
+			add2("quoted-keyword-with-bad-escape", string(rs[:o])+"\""+t.Text+"\\q\""+rest, t.Line, t.Col+1+tl, t.Line, t.Col)
+			add2("quoted-keyword-with-bad-escape", string(rs[:o])+"\""+t.Text+"\n \\qé\""+rest, t.Line+1, 2, t.Line, t.Col)
+			add2("quoted-keyword-with-bad-escape", string(rs[:o])+"'x' + \"\\é\n\""+rest, t.Line, t.Col+7, t.Line, t.Col)
 		}
 		// 3b. a (multi-line) quoted string where ';' or '{' is expected: after "keyword argument"
 		if t.Kind == 2 && ti >= 2 && (toks[ti-1].Kind == 0 || toks[ti-1].Kind == 1) && toks[ti-2].Kind == 0 && (ti-2 == 0 || toks[ti-3].Kind >= 2) {
@@ -149,6 +170,8 @@ func inject(s string) []injected {
 			add("string-instead-of-terminator", string(rs[:o])+" \"z\n z\""+string(rs[o:]), t.Line, t.Col+1)
 			add("string-instead-of-terminator", string(rs[:o])+" 'z\n\tz' "+string(rs[o:]), t.Line, t.Col+1)
 			add("concatenated-string-instead-of-terminator", string(rs[:o])+" \"z\" +\n 'y'\n+ \"x\" "+string(rs[o:]), t.Line, t.Col+1)
+			add2("string-with-bad-escape-instead-of-terminator", string(rs[:o])+" \"z\\q\" "+string(rs[o:]), t.Line, t.Col+3, t.Line, t.Col+1)
+			add2("string-with-bad-escape-instead-of-terminator", string(rs[:o])+" \"z\n  \\qz\" "+string(rs[o:]), t.Line+1, 3, t.Line, t.Col+1)
 		}
 		if t.Kind == 1 && t.Double && !(ti > 0 && toks[ti-1].Kind == 0 && toks[ti-1].Text == "pattern") {
 			// 4. invalid escape right after the opening quote (not in the argument of a pattern
@@ -190,6 +213,16 @@ func checkFault(in injected) *fail {
 	if !strings.HasPrefix(first, "f:"+in.want+":") {
 		return &fail{in.fault + ":position", "f:" + in.want + ":", first}
 	}
+	if in.want2 != "" {
+		// the second error (whatever its text) is about the string token itself
+		starts := errStart.FindAllStringSubmatch(err.Error(), -1)
+		if len(starts) < 2 {
+			return &fail{in.fault + ":second-error-missing", "a second error at f:" + in.want2, err.Error()}
+		}
+		if starts[1][1] != in.want2 {
+			return &fail{in.fault + ":position-of-second-error", "f:" + in.want2 + ":", err.Error()}
+		}
+	}
 	return nil
 }
 
@@ -207,7 +240,81 @@ func shards(tier string) []string {
 	for k := 0; k < 4; k++ {
 		out = append(out, fmt.Sprintf("long/%d", k))
 	}
+	for k := 0; k < 16; k++ {
+		out = append(out, fmt.Sprintf("after/%d", k))
+	}
 	return append(out, "cli")
+}
+
+// runAfter: the pair space of C02 for positions. After every first text, the statements of every
+// second text stand where they stand when it is read on its own, and the faults injected into a few
+// templates are reported where they are.
+func runAfter(c *core.Ctx) {
+	var shard int
+	fmt.Sscanf(c.Shard, "after/%d", &shard)
+	first, second := lexspace.PairPool(c.Tier)
+	refs := make([]rfcread.RRes, len(second))
+	for i, t := range second {
+		refs[i] = rfcread.Parse(t)
+	}
+	var faults []injected
+	for _, tpl := range []string{"k a;", "  k \"x\";", "k a { l b; }", "\tk 'y' {\n\tl \"p\n q\";\n}", "é é; k \"é\" + 'é';"} {
+		for _, in := range inject(tpl) {
+			if rr := rfcread.Parse(in.text); rr.Excluded == "" {
+				faults = append(faults, in)
+			}
+		}
+	}
+	for i, t1 := range first {
+		if i%16 != shard {
+			continue
+		}
+		if c.Expired() {
+			return
+		}
+		t1 := t1
+		for j, t2 := range second {
+			if refs[j].Excluded != "" || refs[j].Err != "" || len(refs[j].Stmts) == 0 {
+				continue
+			}
+			in := Input{Kind: "pos", Text: t2, After: &t1}
+			caseNo, run := c.Begin()
+			if c.Skip(caseNo, run, in) {
+				continue
+			}
+			c.Exec()
+			c.Edge(2)
+			c.StateN(1)
+			c.Validate()
+			c.NontrivialN(1)
+			core.Guard(func() { yang.Parse(t1, "f") })
+			if f, _, _ := checkPosRef(refs[j], t2); f != nil {
+				c.Outcome("FAIL:after:" + f.fp)
+				c.Fail(caseNo, nil, "after:"+f.fp, in, f.exp, f.obs)
+			} else {
+				c.Outcome("second-of-pair:positions-equal")
+			}
+		}
+		for _, inj := range faults {
+			in := Input{Kind: "fault", Text: inj.text, Fault: inj.fault, Want: inj.want, Want2: inj.want2, After: &t1}
+			caseNo, run := c.Begin()
+			if c.Skip(caseNo, run, in) {
+				continue
+			}
+			c.Exec()
+			c.Edge(2)
+			c.StateN(1)
+			c.Validate()
+			c.NontrivialN(1)
+			core.Guard(func() { yang.Parse(t1, "f") })
+			if f := checkFault(inj); f != nil {
+				c.Outcome("FAIL:after:" + f.fp)
+				c.Fail(caseNo, nil, "after:"+f.fp, in, f.exp, f.obs)
+			} else {
+				c.Outcome("second-of-pair:fault-position-right")
+			}
+		}
+	}
 }
 
 // longTexts: one-line texts in which a token, a quoted string, a concatenation or a comment runs for
@@ -251,6 +358,8 @@ func longTexts(n int) []string {
 func run(c *core.Ctx) {
 	c.Res.Bound = "pos: the C02 lexical spaces; fault: templates of <= 5 (thorough 6) pieces of 14 x every single-fault injection; long: one-line texts whose token, string, concatenation or comment runs for 1..160 characters with multi-byte characters at the start, middle, end or nowhere, positions of the following statements and of every injected fault; sem: module templates x layouts x every eligible statement x 7 fault kinds"
 	switch {
+	case strings.HasPrefix(c.Shard, "after/"):
+		runAfter(c)
 	case strings.HasPrefix(c.Shard, "pos/"):
 		sp, idx := lexspace.Find(c.Tier, strings.TrimPrefix(c.Shard, "pos/"))
 		n := 0
@@ -324,7 +433,7 @@ func run(c *core.Ctx) {
 				c.Outcome("positions-equal")
 				for _, inj := range inject(text) {
 					caseNo, run := c.Begin()
-					in := Input{Kind: "fault", Text: inj.text, Fault: inj.fault, Want: inj.want}
+					in := Input{Kind: "fault", Text: inj.text, Fault: inj.fault, Want: inj.want, Want2: inj.want2}
 					if c.Skip(caseNo, run, in) {
 						continue
 					}
@@ -373,11 +482,11 @@ func run(c *core.Ctx) {
 					n++
 					if f := checkFault(in); f != nil {
 						c.Outcome("FAIL:" + f.fp)
-						c.Fail(caseNo, nil, f.fp, Input{Kind: "fault", Text: in.text, Fault: in.fault, Want: in.want}, f.exp, f.obs)
+						c.Fail(caseNo, nil, f.fp, Input{Kind: "fault", Text: in.text, Fault: in.fault, Want: in.want, Want2: in.want2}, f.exp, f.obs)
 					} else {
 						c.Outcome("fault-position-right:" + in.fault)
 						if n%3000 == 77 {
-							b, _ := json.Marshal(Input{Kind: "fault", Text: in.text, Fault: in.fault, Want: in.want})
+							b, _ := json.Marshal(Input{Kind: "fault", Text: in.text, Fault: in.fault, Want: in.want, Want2: in.want2})
 							c.Sample(string(b))
 						}
 					}
@@ -411,11 +520,14 @@ func replay(tier string, raw json.RawMessage) (bool, string, string) {
 		return false, "", err.Error()
 	}
 	var f *fail
+	if in.After != nil {
+		core.Guard(func() { yang.Parse(*in.After, "f") })
+	}
 	switch in.Kind {
 	case "pos":
 		f, _, _ = checkPos(in.Text)
 	case "fault":
-		f = checkFault(injected{in.Fault, in.Text, in.Want})
+		f = checkFault(injected{in.Fault, in.Text, in.Want, in.Want2})
 	case "sem":
 		f = checkSem(in)
 	case "cli":
@@ -424,13 +536,16 @@ func replay(tier string, raw json.RawMessage) (bool, string, string) {
 	if f == nil {
 		return false, "", "positions agree"
 	}
+	if in.After != nil {
+		f.fp = "after:" + f.fp
+	}
 	return true, f.fp, fmt.Sprintf("expected %s observed %s", f.exp, f.obs)
 }
 
 func init() {
 	core.Register(&core.Prop{
 		ID: "C16", Variant: "plain", Shards: shards, Run: run, Replay: replay,
-		Rule:        "pos: every text of the C02 lexical spaces that the reference reader accepts with at least one statement - Location() of every statement must be file:line:col of the first character of its keyword as computed by the reference reader (1-based, columns in characters); fault: every accepted template over a 14-piece alphabet (tabs, CR LF, multi-byte runes, comments, multi-line strings) with one fault injected at every applicable token (stray }, removed ;, quoted keyword, four invalid escapes, unterminated \", ', /*) - the first error line must start with the position of the offending token / backslash / opener; sem: module templates re-laid-out in hostile layouts with one semantic fault (unknown substatement, missing mandatory substatement, unknown type, unknown grouping, bad range, bad length, bad enum value) at every eligible statement - every file:line:col in any error must be the start of a statement and the statement the property names must be named; cli: the goyang command fed 6 texts behind 10 leading layouts on standard input - the positions in its error messages and in its --types_debug listing are those the library reports for the identical text; states = distinct templates/texts; non-trivial = compared cases",
+		Rule:        "pos: every text of the C02 lexical spaces that the reference reader accepts with at least one statement - Location() of every statement must be file:line:col of the first character of its keyword as computed by the reference reader (1-based, columns in characters); fault: every accepted template over a 14-piece alphabet (tabs, CR LF, multi-byte runes, comments, multi-line strings) with one fault injected at every applicable token (stray }, removed ;, quoted keyword, four invalid escapes, unterminated \", ', /*) - the first error line must start with the position of the offending token / backslash / opener (a string with an invalid escape standing where no string may stand: first the backslash, then the opening quote); after: every text of the first pool of the pair space (short texts, texts that end abruptly at some column) is parsed, then every accepted text of the second pool and the faults injected into five templates, whose positions must be those they have on their own; sem: module templates re-laid-out in hostile layouts with one semantic fault (unknown substatement, missing mandatory substatement, unknown type, unknown grouping, bad range, bad length, bad enum value) at every eligible statement - every file:line:col in any error must be the start of a statement and the statement the property names must be named; cli: the goyang command fed 6 texts behind 10 leading layouts on standard input - the positions in its error messages and in its --types_debug listing are those the library reports for the identical text; states = distinct templates/texts; non-trivial = compared cases",
 		Assumptions: []string{"the reference reader's positions are the true positions", "for cascading lexical faults only the first reported error line is compared", "missing-closing-brace and unexpected-EOF reports are outside the claim"},
 	})
 }
